@@ -1,18 +1,19 @@
 #!/bin/sh
 # Re-runs every kept seeded change against the quick check of the property it breaks.
-# usage: seeded_regress.sh [VERIF_SEED]   (applies each patch to /repo, runs, undoes)
+# usage: seeded_regress.sh [VERIF_SEED]   (applies each patch to /repo - or to the checkout named by VERIF_REPO - runs, undoes)
 seed=${1:-1}
-cd /verif
+cd "$(dirname "$(readlink -f "$0")")"
+REPO=${VERIF_REPO:-/repo}
 for d in seeded/*/; do
   id=$(basename $d); prop=$(python3 -c "import json;print(json.load(open('$d/meta.json'))['breaks'])")
-  git -C /repo checkout -q HEAD -- .
-  if ! git -C /repo apply $PWD/$d/patch.diff 2>/dev/null; then
-    if ! git -C /repo apply --3way $PWD/$d/patch.diff 2>/dev/null; then git -C /repo checkout -q HEAD -- .; echo "$id $prop PATCH-DOES-NOT-APPLY"; continue; fi
+  git -C $REPO checkout -q HEAD -- .
+  if ! git -C $REPO apply $PWD/$d/patch.diff 2>/dev/null; then
+    if ! git -C $REPO apply --3way $PWD/$d/patch.diff 2>/dev/null; then git -C $REPO checkout -q HEAD -- .; echo "$id $prop PATCH-DOES-NOT-APPLY"; continue; fi
   fi
-  git -C /repo reset -q
+  git -C $REPO reset -q
   out=$(VERIF_SEED=$seed ./check $prop quick 2>&1)
   n=$(echo "$out" | grep -c "^VIOLATION")
   rules=$(echo "$out" | grep -oE "^  C[0-9]+/[a-z0-9-]+" | sort -u | tr -d ' ' | tr '\n' ' ')
   echo "$id $prop violations=$n $rules"
-  git -C /repo checkout -q HEAD -- .
+  git -C $REPO checkout -q HEAD -- .
 done
